@@ -106,3 +106,49 @@ def ob_monotone_union(k0: int, t0: int, g0: int, k1: int, t1: int, g1: int, fk1:
         if i not in wide:
             return "narrower filter %r returned %s which the wider filter %r does not return" % (f2, i[-2:], f)
     return "ok" if narrow else "ok-empty"
+
+
+_HEX = ("00" * 32, "ab" * 32, "ff" * 32)
+_ITEMS_POOL = ((("authors", (_HEX[1],)),), (("authors", (_HEX[2],)),), (("authors", (_HEX[2], _HEX[1])),),
+               (("ids", (_HEX[1],)),), (("ids", (_HEX[2],)),), (("ids", (_HEX[2], _HEX[1])),),
+               (("authors", (_HEX[1],)), ("kinds", (1,))), (("kinds", (2, 1)),))
+
+
+def _ref_items(items, e):
+    for key, vals in items:
+        field = {"authors": e["pubkey"], "ids": e["id"], "kinds": e["kind"]}[key]
+        if field not in vals:
+            return False
+    return True
+
+
+@obligation(funcs=["storage.kv.compile_match_from_query"], timeout=(200, 900),
+            bounds="two residual matchers generated by the REAL compile_match_from_query (no holes: concrete query_items drawn by "
+                   "symbolic selectors from 8 shapes – full-length authors / ids lists of 1-2 values, authors+kinds, kinds) one "
+                   "after the other, as the lru_cache in front of the generator keeps the first alive while later filters are "
+                   "compiled; event id/pubkey by selector from 3 values, kind symbolic 0..3: the first matcher's verdict on the "
+                   "event is the same before and after the second one is compiled, and both agree with NIP-01 (the answer to a "
+                   "filter does not depend on which other filters the relay has served)")
+def ob_matchers_independent(i: int, j: int, idsel: int, pksel: int, kind: int) -> str:
+    """
+    pre: 0 <= i < 8 and 0 <= j < 8 and 0 <= idsel < 3 and 0 <= pksel < 3 and 0 <= kind <= 3
+    post: _.startswith("ok")
+    """
+    logging.disable(logging.CRITICAL)
+    from harness import C01_matcher as M
+    from vk.ob import pick
+    e = dict(id=pick(_HEX, idsel), pubkey=pick(_HEX, pksel), kind=kind, created_at=5, tags=[])
+    et = M._et(e)
+    items1, items2 = pick(_ITEMS_POOL, i), pick(_ITEMS_POOL, j)
+    check1 = M._concrete_check(items1)
+    before = bool(check1(et))
+    check2 = M._concrete_check(items2)
+    after = bool(check1(et))
+    second = bool(check2(et))
+    if before != _ref_items(items1, e):
+        return "matcher for %r says %r for event %r" % (items1, before, e)
+    if after != before:
+        return "matcher for %r answered %r for event %r, and %r after a matcher for %r had been compiled" % (items1, before, e, after, items2)
+    if second != _ref_items(items2, e):
+        return "matcher for %r (compiled after one for %r) says %r for event %r" % (items2, items1, second, e)
+    return "ok" if before or second else "ok-nomatch"
